@@ -734,18 +734,18 @@ class FunctionTranslator:
                 self.fail(s, 'code after an if whose branches both terminate')
             txt = f'if {c} then\n{self.block(s.body, env, None)}\nelse\n{self.block(s.orelse, env, None)}'
             return self.wrap_pre(e.pre, txt)
+        # A branch that always terminates (return/raise) does not continue; the other branch continues with the rest of the
+        # enclosing block, which is simply appended to it (so early returns nested deeper are handled by the recursion).
         if tb:
-            if contains_return(s.orelse):
-                self.fail(s, 'early return nested in fall-through branch')
-            txt = f'if {c} then\n{self.block(s.body, env, None)}\nelse\n{self.block(s.orelse, env, cont)}'
+            txt = f'if {c} then\n{self.block(s.body, env, None)}\nelse\n{self.block(s.orelse + rest, env, k)}'
             return self.wrap_pre(e.pre, txt)
         if te:
-            if contains_return(s.body):
-                self.fail(s, 'early return nested in fall-through branch')
-            txt = f'if {c} then\n{self.block(s.body, env, cont)}\nelse\n{self.block(s.orelse, env, None)}'
+            txt = f'if {c} then\n{self.block(s.body + rest, env, k)}\nelse\n{self.block(s.orelse, env, None)}'
             return self.wrap_pre(e.pre, txt)
         if contains_return(s.body) or contains_return(s.orelse):
-            self.fail(s, 'early return nested in fall-through branch')
+            # both branches may fall through but one hides an early return: duplicate the continuation
+            txt = (f'if {c} then\n{self.block(s.body + rest, env, k)}\nelse\n{self.block(s.orelse + rest, env, k)}')
+            return self.wrap_pre(e.pre, txt)
         phi = [n for n in assigned_names(s.body + s.orelse)]
         body_only = [n for n in phi if n not in env]
         if body_only:
